@@ -14,7 +14,9 @@ from harness.common import VERIF, Violation
 
 def source_hash():
     h = hashlib.sha1()
-    for f in sorted(Path("/repo/src/lerax").rglob("*.py")):
+    import importlib.util
+    root = Path(importlib.util.find_spec("lerax").origin).parent     # the lerax that the exerciser will import (PYTHONPATH)
+    for f in sorted(root.rglob("*.py")):
         h.update(str(f).encode()); h.update(f.read_bytes())
     h.update(Path(__file__).with_name("sub_builtin.py").read_bytes())
     return h.hexdigest()[:16]
